@@ -458,6 +458,29 @@ func Run(t *testing.T, cs Case, opts bubble.StackOpts, hello []byte, oracle func
 			if tunnel != nil {
 				tunnel.Close()
 			}
+		case "h2-short-frame":
+			// one frame of type K/256 whose payload has Val octets (0..9: at, below and above the size of every mandatory
+			// field), with no flag or with every flag that type defines (K%256), on stream 1 (stream 0 for the connection
+			// frame types); whatever the server answers, it goes on serving others
+			cl = st.Connect("victim", nil, HelloH2)
+			synctest.Wait()
+			cl.StartH2()
+			synctest.Wait()
+			typ, flags := byte(cs.K/256), byte(cs.K%256)
+			sid := uint32(1)
+			if typ == 4 || typ == 6 || typ == 7 {
+				sid = 0
+			}
+			payload := make([]byte, cs.Val)
+			for i := range payload {
+				payload[i] = byte(i + 1)
+			}
+			cl.Write(h2wire.Append(nil, typ, flags, sid, payload))
+			synctest.Wait()
+			cl.SendH2(101, bubble.Req{Path: "/after", Host: "localhost"})
+			synctest.Wait()
+			cl.Close()
+			synctest.Wait()
 		case "h2-rare":
 			// one rare but legal (or cleanly refusable) HTTP/2 sequence on a connection, then a plain request and a PING
 			cl = st.Connect("victim", nil, HelloH2)
@@ -495,7 +518,7 @@ func Run(t *testing.T, cs Case, opts bubble.StackOpts, hello []byte, oracle func
 		// let every armed timer fire (handshake timeout 10 s, http2 goaway/settings timers)
 		time.Sleep(40 * time.Second)
 		synctest.Wait()
-		if cs.Kind == "stall" || cs.Kind == "plain-http" || cs.Kind == "h2-mutation" || cs.Kind == "h2-flood" || cs.Kind == "h2-rare" || cs.Kind == "stall-after-handshake" {
+		if cs.Kind == "stall" || cs.Kind == "plain-http" || cs.Kind == "h2-mutation" || cs.Kind == "h2-flood" || cs.Kind == "h2-rare" || cs.Kind == "h2-short-frame" || cs.Kind == "stall-after-handshake" {
 			cl.Close() // the stalled client finally goes away
 			if cl.Raw != nil {
 				cl.Raw.Close()
@@ -575,6 +598,26 @@ func h2Mutation(cl *bubble.Client, k, val int) []byte {
 		}
 	}
 	return out
+}
+
+// H2ShortFrames lists the (type<<8|flags, payload length) pairs of case kind "h2-short-frame".
+func H2ShortFrames() (out [][2]int) {
+	all := map[byte]byte{0: 0x09, 1: 0x2d, 2: 0, 3: 0, 4: 0x01, 5: 0x0c, 6: 0x01, 7: 0, 8: 0, 9: 0x04}
+	for typ := byte(0); typ <= 9; typ++ {
+		fl := []byte{0}
+		if all[typ] != 0 {
+			fl = append(fl, all[typ])
+		}
+		if typ == 1 {
+			fl = append(fl, 0x28, 0x08, 0x20) // PADDED|PRIORITY, PADDED, PRIORITY (without END_HEADERS)
+		}
+		for _, f := range fl {
+			for n := 0; n <= 9; n++ {
+				out = append(out, [2]int{int(typ)<<8 | int(f), n})
+			}
+		}
+	}
+	return
 }
 
 // H2FieldVariants is the number of header-field mutation variants per frame.
